@@ -89,6 +89,9 @@ def run(m, chk):
                    func=EQ, construct=f"{who}.{f} not consulted" if who == "self" else f"other.{f} not consulted")
     # 2. dead refinement
     dead_refinement(r, chk, EQ)
+    from .extra import refine_both
+
+    refine_both(r, chk, EQ)
     # 3. purity, negation, first guard
     r.pure("PURE", EQ, ["self", other])
     r.pure("PURE", NE, list(r.root(NE).fi.params))
